@@ -55,9 +55,10 @@ class Pool:
                 out[i + j * n] = json.loads(ln)
         return out
 
-    def once(self, h, call, variant='cache', timeout=120):
-        """the same single call in a really fresh interpreter (no fork server involved)"""
-        p = subprocess.run([common.PY, WORKER, '--once'], input=json.dumps({'h': h, 'call': call, 'variant': variant}),
+    def once(self, h, call, variant='cache', timeout=120, pc=None):
+        """the same single call in a really fresh interpreter (no fork server involved); `pc` = the parse call that
+        governs the tree a stringify call writes out"""
+        p = subprocess.run([common.PY, WORKER, '--once'], input=json.dumps({'h': h, 'call': call, 'variant': variant, 'pc': pc}),
                            stdout=subprocess.PIPE, stderr=subprocess.PIPE, text=True, env=self.env, timeout=timeout)
         if p.returncode != 0:
             raise RuntimeError('fresh interpreter failed: ' + p.stderr[-800:])
@@ -73,19 +74,42 @@ def oracle(h, r):
     if 'worker_error' in hist:
         return [('harness:worker-error', 'the history child crashed: ' + hist['worker_error'][-300:], {})]
     seq = list(h['calls']) + [h['probe']]
+    extras = r.get('extra') or [{}] * len(seq)
+    writes = {}   # tree number -> how often it has been written out since it was parsed
     for i, (c, rec, fr, fn) in enumerate(zip(seq, hist['calls'], r['fresh'], r['fresh_nocache'])):
         if 'worker_error' in fr or 'worker_error' in fn:
             out.append(('harness:worker-error', 'a reference child crashed: ' + str(fr)[-300:], {}))
             continue
         role = 'probe' if i == len(seq) - 1 else 'call %d' % i
-        if rec['out'] != fr['out']:
+        op = c.get('op', 'expand')
+        ex = extras[i] or {}
+        if op == 'parse':
+            writes[c.get('tree')] = 0
+        if op == 'stringify':
+            # the two-step route: write-out number n of a caller-owned parsed tree
+            writes[c.get('tree')] = n = writes.get(c.get('tree'), 0) + 1
+            if rec['out'] != fr['out']:
+                out.append(('tree-output-depends-on-history:' + rec['kind'],
+                            '%s: write-out number %d of caller-owned tree %r (stringify after %d earlier call(s)) gave %r; the same tree '
+                            'parsed and written out once with the same arguments in a fresh interpreter state gives %r'
+                            % (role, n, c.get('tree'), i, rec['out'], fr['out']), {'call': i}))
+            if 'expand' in ex and 'worker_error' not in ex['expand'] and fr['out'] != ex['expand']['out'] and fr['out'] != ['skipped']:
+                out.append(('two-step-route-differs-from-expand:' + rec['kind'],
+                            '%s: in a fresh interpreter state, parsing and writing out once gives %r; expand() of the same abbreviation '
+                            'with the same configuration gives %r' % (role, fr['out'], ex['expand']['out']), {'call': i}))
+        elif rec['out'] != fr['out']:
             out.append(('result-depends-on-history:' + rec['kind'],
-                        '%s expand(%r) after %d earlier call(s) gave %r, the same call in a fresh interpreter state gives %r'
-                        % (role, c['abbr'], i, rec['out'], fr['out']), {'call': i}))
+                        '%s %s(%r) after %d earlier call(s) gave %r, the same call in a fresh interpreter state gives %r'
+                        % (role, 'expand' if op == 'expand' else op, c.get('abbr'), i, rec['out'], fr['out']), {'call': i}))
         if fr['out'] != fn['out']:
             out.append(('cache-changes-result:' + rec['kind'],
-                        '%s expand(%r) in a fresh state gives %r with an (empty) cache dict and %r without cache'
-                        % (role, c['abbr'], fr['out'], fn['out']), {'call': i}))
+                        '%s %s(%r) in a fresh state gives %r with an (empty) cache dict and %r without cache'
+                        % (role, 'expand' if op == 'expand' else op, c.get('abbr'), fr['out'], fn['out']), {'call': i}))
+        if 'plain' in ex and 'worker_error' not in ex['plain'] and ex['plain']['out'] != fr['out']:
+            out.append(('equal-arguments-differ:' + rec['kind'],
+                        '%s expand(%r) in a fresh state gives %r with the configuration as written and %r with an EQUAL configuration '
+                        '(==) whose mappings were built in another key order' % (role, c.get('abbr'), ex['plain']['out'], fr['out']),
+                        {'call': i}))
     for p in hist['problems']:
         w = p['what']
         if w == 'caller-config-changed':
